@@ -11,10 +11,47 @@ use common::{Out, RunStats};
 
 /// The process allocator is the real `AllocProfiler`, so that allocations divan
 /// makes itself (slot buffers, sample vectors) reach the thread tallies like
-/// they do in a user's benchmark binary; scheduler, hooks and harness
-/// bookkeeping erase their own traces (`divan::verif::untracked`).
+/// they do in a user's benchmark binary. Requests made while the thread is
+/// doing scheduler, hook or harness bookkeeping (`divan::verif::untracked`,
+/// scheduling points) go straight to the system allocator instead, so they
+/// leave no trace in any tally.
+struct Gate;
+
+static PROFILED: divan::AllocProfiler = divan::AllocProfiler::system();
+
+unsafe impl std::alloc::GlobalAlloc for Gate {
+    unsafe fn alloc(&self, layout: std::alloc::Layout) -> *mut u8 {
+        if divan::verif::in_harness() {
+            std::alloc::System.alloc(layout)
+        } else {
+            PROFILED.alloc(layout)
+        }
+    }
+    unsafe fn alloc_zeroed(&self, layout: std::alloc::Layout) -> *mut u8 {
+        if divan::verif::in_harness() {
+            std::alloc::System.alloc_zeroed(layout)
+        } else {
+            PROFILED.alloc_zeroed(layout)
+        }
+    }
+    unsafe fn realloc(&self, ptr: *mut u8, layout: std::alloc::Layout, new_size: usize) -> *mut u8 {
+        if divan::verif::in_harness() {
+            std::alloc::System.realloc(ptr, layout, new_size)
+        } else {
+            PROFILED.realloc(ptr, layout, new_size)
+        }
+    }
+    unsafe fn dealloc(&self, ptr: *mut u8, layout: std::alloc::Layout) {
+        if divan::verif::in_harness() {
+            std::alloc::System.dealloc(ptr, layout)
+        } else {
+            PROFILED.dealloc(ptr, layout)
+        }
+    }
+}
+
 #[global_allocator]
-static GLOBAL: divan::AllocProfiler = divan::AllocProfiler::system();
+static GLOBAL: Gate = Gate;
 use serde_json::json;
 
 fn main() {
